@@ -119,6 +119,13 @@ theorem CI.nested {p : PP} (h : CI p) : CI ({ buf := p.buf, override := p.overri
 theorem CI.handBack {p : PP} (h : CI p) {b : Buffer} (hb : Clean b) : CI { p with buf := b.setMode p.buf.mode } :=
   ⟨clean_setMode hb _, by show (b.setMode p.buf.mode).mode ≠ _; rw [setMode_mode]; exact h.mode⟩
 
+/-- A clean format: at every position, the literal text up to the next `%` ends in a complete
+character (every valid UTF-8 format is clean: `%` is ASCII). Closed under suffixes by definition. -/
+def FmtCl (f : List Byte) : Prop := ∀ s, s <:+ f → EndsRune (s.takeWhile (· ≠ 0x25))
+
+theorem FmtCl.suffix {f g : List Byte} (h : FmtCl f) (hg : g <:+ f) : FmtCl g := fun s hs => h s (List.IsSuffix.trans hs hg)
+theorem FmtCl.lit {f : List Byte} (h : FmtCl f) : EndsRune (f.takeWhile (· ≠ 0x25)) := h f (List.suffix_refl _)
+
 /-! ### Clean values -/
 
 mutual
@@ -147,7 +154,7 @@ def ScriptCl : Script → Prop
   | .write s k => EndsRune s ∧ ScriptCl k
   | .unsafeLeaf _ k => ScriptCl k
   | .print args k => ValsCl args ∧ ScriptCl k
-  | .printf _ _ _ => False     -- nested Printf: formats are not covered yet
+  | .printf f args k => FmtCl f ∧ ValsCl args ∧ ScriptCl k
   | .indep k => ScriptCl k
   | .panic payload => ValCl payload
 end
@@ -283,6 +290,129 @@ theorem cs_retOut (nr : Bool) {p : PP} (hp : CI p) (sc : Script) (hsc : ScriptCl
     · exact .raised hp (by simpa [ScriptCl] using hsc)
     · exact .abort h
 
+/-! ### The directive parser only drops prefixes, and keeps the buffer clean -/
+
+
+theorem parsenumAux_suffix (num : Nat) (isnum : Bool) (s : List Byte) : (parsenumAux num isnum s).2.2 <:+ s := by
+  induction s generalizing num isnum with
+  | nil => simp [parsenumAux]
+  | cons c r ih =>
+    unfold parsenumAux
+    split
+    · split
+      · exact List.nil_suffix
+      · exact List.IsSuffix.trans (ih _ _) (List.suffix_cons _ _)
+    · exact List.suffix_refl _
+
+theorem parsenum_suffix (s : List Byte) : (parsenum s).2.2 <:+ s := parsenumAux_suffix 0 false s
+
+theorem parseFlags_suffix (fr : Bool) (st : FState) (s : List Byte) : (parseFlags fr st s).2 <:+ s := by
+  induction s generalizing st with
+  | nil => simp [parseFlags]
+  | cons c r ih =>
+    unfold parseFlags
+    repeat' split
+    all_goals first
+      | exact List.IsSuffix.trans (ih _) (List.suffix_cons _ _)
+      | exact List.suffix_refl _
+
+theorem decodeVerb_suffix (s : List Byte) (v : Nat) (r : List Byte) (h : decodeVerb s = some (v, r)) : r <:+ s := by
+  unfold decodeVerb at h
+  repeat' split at h
+  all_goals first
+    | (simp only [Option.some.injEq, Prod.mk.injEq] at h; obtain ⟨_, rfl⟩ := h
+       first
+        | exact List.suffix_cons _ _
+        | exact ⟨[_, _], rfl⟩
+        | exact ⟨[_, _, _], rfl⟩
+        | exact ⟨[_, _, _, _], rfl⟩)
+    | cases h
+
+theorem argNumber_suffix (p : PP) (k : Nat) (f : List Byte) (n : Nat) : (argNumber p k f n).2.2.1 <:+ f := by
+  unfold argNumber
+  repeat' split
+  all_goals first
+    | exact List.drop_suffix _ _
+    | exact List.suffix_refl _
+
+theorem argNumber_ci {p : PP} (h : CI p) (k : Nat) (f : List Byte) (n : Nat) : CI (argNumber p k f n).1 := by
+  unfold argNumber
+  repeat' split
+  all_goals exact ⟨h.clean, h.mode⟩
+
+theorem widthStage_suffix (p : PP) (args : List Val) (k : Nat) (r : List Byte) (ai : Bool) : (widthStage p args k r ai).2.2.1 <:+ r := by
+  unfold widthStage
+  split
+  · exact List.suffix_cons _ _
+  · exact parsenum_suffix _
+
+theorem widthStage_ci {p : PP} (h : CI p) (args : List Val) (k : Nat) (r : List Byte) (ai : Bool) : CI (widthStage p args k r ai).1 := by
+  unfold widthStage
+  split
+  · dsimp only
+    generalize intFromArg args k = ifa
+    obtain ⟨num, isInt, newArg⟩ := ifa
+    dsimp only
+    have h1 : CI ({ p with f := { p.f with wid := num.toNat, widPresent := isInt } } : PP) := ⟨h.clean, h.mode⟩
+    have h2 : CI (if (!isInt) = true then ({ p with f := { p.f with wid := num.toNat, widPresent := isInt } } : PP).w
+        ([0x25, 0x21, 0x28, 0x42, 0x41, 0x44, 0x57, 0x49, 0x44, 0x54, 0x48, 0x29] /- "%!(BADWIDTH)" -/ : List UInt8)
+        else { p with f := { p.f with wid := num.toNat, widPresent := isInt } }) := by
+      split
+      · exact h1.wa (asc_of_all (by decide))
+      · exact h1
+    split
+    · exact ⟨h2.clean, h2.mode⟩
+    · exact h2
+  · dsimp only
+    split <;> exact ⟨h.clean, h.mode⟩
+
+theorem precStage_suffix (p : PP) (args : List Val) (k : Nat) (r : List Byte) (ai : Bool) : (precStage p args k r ai).2.2.1 <:+ r := by
+  unfold precStage
+  split
+  · rename_i c r''
+    dsimp only
+    have h1 := argNumber_suffix (if ai = true then { p with goodArgNum := false } else p) k (c :: r'') args.length
+    generalize argNumber (if ai = true then { p with goodArgNum := false } else p) k (c :: r'') args.length = an at h1
+    obtain ⟨py, ky, ry, aiy⟩ := an
+    dsimp only at h1 ⊢
+    have h2 : ry <:+ 0x2E :: c :: r'' := List.IsSuffix.trans h1 (List.suffix_cons _ _)
+    split
+    · rename_i r3
+      exact List.IsSuffix.trans (List.suffix_cons _ _) h2
+    · exact List.IsSuffix.trans (parsenum_suffix _) h2
+  · exact List.suffix_refl _
+
+theorem precStage_ci {p : PP} (h : CI p) (args : List Val) (k : Nat) (r : List Byte) (ai : Bool) : CI (precStage p args k r ai).1 := by
+  unfold precStage
+  split
+  · rename_i c r''
+    dsimp only
+    have g1 : CI (if ai = true then { p with goodArgNum := false } else p) := by split <;> exact ⟨h.clean, h.mode⟩
+    generalize (if ai = true then { p with goodArgNum := false } else p) = px at g1 ⊢
+    have g2 := argNumber_ci g1 k (c :: r'') args.length
+    generalize argNumber px k (c :: r'') args.length = an at g2 ⊢
+    obtain ⟨py, ky, ry, aiy⟩ := an
+    dsimp only at g2 ⊢
+    split
+    · dsimp only
+      generalize intFromArg args ky = ifa
+      obtain ⟨num, isInt, newArg⟩ := ifa
+      dsimp only
+      generalize (if num < 0 then ((0 : Nat), false) else (num.toNat, isInt)) = pp
+      obtain ⟨prec, precPresent⟩ := pp
+      dsimp only
+      have h1 : CI ({ py with f := { py.f with prec := prec, precPresent := precPresent } } : PP) := ⟨g2.clean, g2.mode⟩
+      split
+      · exact h1.wa (asc_of_all (by decide))
+      · exact h1
+    · dsimp only
+      generalize parsenum ry = pn
+      obtain ⟨pr, ppres, r3⟩ := pn
+      dsimp only
+      exact ⟨g2.clean, g2.mode⟩
+  · exact h
+
+
 /-! ### Through the printer -/
 
 
@@ -304,10 +434,16 @@ structure KSpec (env : Env) (n : Nat) : Prop where
   printPairs : ∀ p ks vs verb d ik iv ro f, CI p → ValsCl ks → ValsCl vs → CR (printPairs env n p ks vs verb d ik iv ro f)
   doPrint : ∀ p args, CI p → ListCl args → CR (doPrint env n p args)
   doPrintLoop : ∀ p args k ps, CI p → ListCl args → CR (doPrintLoop env n p args k ps)
+  doPrintf : ∀ p f args, CI p → FmtCl f → ListCl args → CR (doPrintf env n p f args)
+  fmtLoop : ∀ p f args k ai, CI p → FmtCl f → ListCl args → CR (fmtLoop env n p f args k ai)
+  directiveTail : ∀ p f args k ai, CI p → FmtCl f → ListCl args → CR (directiveTail env n p f args k ai)
+  finishPrintf : ∀ p args k, CI p → ListCl args → CR (finishPrintf env n p args k)
+  extraLoop : ∀ p args f, CI p → ListCl args → CR (extraLoop env n p args f)
 
 theorem kspec_zero (env : Env) : KSpec env 0 := by
   constructor <;> intros <;> simp only [printArg, printArgBody, badVerb, handleMethods, methDispatch, fmtString, catchPanic,
-    runScript, printValue, printSlot, slotMethods, printFields, printElems, printPairs, doPrint, doPrintLoop]
+    runScript, printValue, printSlot, slotMethods, printFields, printElems, printPairs, doPrint, doPrintLoop,
+    doPrintf, fmtLoop, directiveTail, finishPrintf, extraLoop]
   all_goals first
     | exact CR.fuel
     | exact CS.abort .fuel
@@ -357,6 +493,8 @@ macro "kmono" : tactic => `(tactic| repeat' (first
   | with_reducible apply K.printPairs
   | with_reducible apply K.doPrint
   | with_reducible apply K.doPrintLoop
+  | with_reducible apply K.finishPrintf
+  | with_reducible apply K.extraLoop
   | with_reducible apply cr_ite
   | with_reducible apply cr_ite_h
   | with_reducible apply crh_mk
@@ -463,7 +601,16 @@ theorem kstep_runScript (he : EnvCl env) (K : KSpec env n) : ∀ p sc, CI p → 
     | panic hb hpl => exact .raised (hp.handBack hb) hpl
     | fuel => exact .abort .fuel
     | unsupported => exact .abort .unsupported
-  | printf f args k => simp [ScriptCl] at hv
+  | printf f args k =>
+    simp only [ScriptCl] at hv
+    simp only
+    have hd := K.doPrintf ({ buf := p.buf, override := p.override } : PP) f args.toList hp.nested hv.1 (listCl_of_valsCl _ hv.2.1)
+    generalize doPrintf env n ({ buf := p.buf, override := p.override } : PP) f args.toList = r at hd ⊢
+    cases hd with
+    | ok hq => exact K.runScript _ _ (hp.handBack hq.clean) hv.2.2
+    | panic hb hpl => exact .raised (hp.handBack hb) hpl
+    | fuel => exact .abort .fuel
+    | unsupported => exact .abort .unsupported
   | unsafeLeaf id k =>
     simp only
     split
@@ -575,6 +722,145 @@ theorem kstep_doPrintLoop (he : EnvCl env) (K : KSpec env n) : ∀ p args k ps, 
     simp only
     kmono
 
+theorem listCl_drop {l : List Val} (h : ListCl l) (k : Nat) : ListCl (l.drop k) :=
+  fun v hv => h v (List.mem_of_mem_drop hv)
+theorem listCl_get {args : List Val} (ha : ListCl args) {k : Nat} {a : Val} (h : args[k]? = some a) : ValCl a :=
+  ha a (List.mem_of_getElem? h)
+
+theorem ci_setSafe {p : PP} (hp : CI p) : CI (if p.override ≠ .ovUnsafe then { p with buf := p.buf.setMode .safeEsc } else p) := by
+  split
+  · exact ⟨clean_setMode hp.clean _, by show (p.buf.setMode .safeEsc).mode ≠ _; rw [setMode_mode]; decide⟩
+  · exact hp
+
+theorem kstep_doPrintf (he : EnvCl env) (K : KSpec env n) : ∀ p f args, CI p → FmtCl f → ListCl args → CR (doPrintf env (n + 1) p f args) := by
+  intro p f args hp hf hv
+  unfold doPrintf
+  dsimp only
+  have h1 := ci_setSafe hp
+  generalize (if p.override ≠ .ovUnsafe then { p with buf := p.buf.setMode .safeEsc } else p) = p1 at h1 ⊢
+  apply cr_bind (K.fmtLoop ({ p1 with reordered := false } : PP) _ _ _ _ ⟨h1.clean, h1.mode⟩ hf hv)
+  intro q hq
+  exact .ok hq
+
+theorem kstep_extraLoop (he : EnvCl env) (K : KSpec env n) : ∀ p args f, CI p → ListCl args → CR (extraLoop env (n + 1) p args f) := by
+  intro p args f hp hl
+  unfold extraLoop
+  cases args with
+  | nil => exact .ok hp
+  | cons a rest =>
+    have hv := listCl_tail hl
+    simp only
+    apply cr_bind _ (fun q hq => K.extraLoop _ _ _ hq hv.2)
+    cases a <;> simp only <;> kmono
+
+theorem kstep_finishPrintf (he : EnvCl env) (K : KSpec env n) : ∀ p args k, CI p → ListCl args → CR (finishPrintf env (n + 1) p args k) := by
+  intro p args k hp hl
+  have hv := listCl_drop hl k
+  unfold finishPrintf
+  kmono
+
+theorem kstep_fmtLoop (he : EnvCl env) (K : KSpec env n) : ∀ p f args k ai, CI p → FmtCl f → ListCl args →
+    CR (fmtLoop env (n + 1) p f args k ai) := by
+  intro p f args k ai hp hf hv
+  unfold fmtLoop
+  dsimp only
+  have h0 : CI ({ p with goodArgNum := true } : PP) := ⟨hp.clean, hp.mode⟩
+  have h1 : CI (if (f.takeWhile (· ≠ 0x25)).isEmpty = true then ({ p with goodArgNum := true } : PP)
+      else ({ p with goodArgNum := true } : PP).w (f.takeWhile (· ≠ 0x25))) := by
+    split
+    · exact h0
+    · exact h0.w hf.lit
+  generalize (if (f.takeWhile (· ≠ 0x25)).isEmpty = true then ({ p with goodArgNum := true } : PP)
+      else ({ p with goodArgNum := true } : PP).w (f.takeWhile (· ≠ 0x25))) = p1 at h1 ⊢
+  have hrest : f.dropWhile (· ≠ 0x25) <:+ f := List.dropWhile_suffix _
+  split
+  · exact K.finishPrintf _ _ _ h1 hv
+  · rename_i c r0 heq
+    have hr0 : r0 <:+ f := List.IsSuffix.trans (List.suffix_cons _ _) (heq ▸ hrest)
+    have hpf := parseFlags_suffix true {} r0
+    generalize parseFlags true {} r0 = pf at hpf
+    obtain ⟨fs, r1⟩ := pf
+    dsimp only at hpf ⊢
+    have hr1 : r1 <:+ f := List.IsSuffix.trans hpf hr0
+    have h2 : CI ({ { p1 with f := p1.f.clear } with f := { p1.f.clear with plus := fs.plus, minus := fs.minus, sharp := fs.sharp, space := fs.space, zero := fs.zero } } : PP) :=
+      ⟨h1.clean, h1.mode⟩
+    split
+    · rename_i c2 r2
+      have hr2 : r2 <:+ f := List.IsSuffix.trans (List.suffix_cons _ _) hr1
+      split
+      · split
+        · rename_i a ha2
+          have hva := listCl_get hv ha2
+          apply cr_bind
+          · apply K.printArg _ _ _ _ hva
+            split
+            · exact ⟨h2.clean, h2.mode⟩
+            · exact h2
+          · intro q hq
+            exact K.fmtLoop _ _ _ _ _ hq (hf.suffix hr2) hv
+        · apply cr_ok
+          split
+          · exact ⟨h2.clean, h2.mode⟩
+          · exact h2
+      · exact K.directiveTail _ _ _ _ _ h2 (hf.suffix hr1) hv
+    · exact K.directiveTail _ _ _ _ _ h2 (hf.suffix hr1) hv
+
+theorem kstep_directiveTail (he : EnvCl env) (K : KSpec env n) : ∀ p f args k ai, CI p → FmtCl f → ListCl args →
+    CR (directiveTail env (n + 1) p f args k ai) := by
+  intro p f args k ai hp hf hv
+  unfold directiveTail
+  dsimp only
+  have c1 := argNumber_ci hp k f args.length
+  have s1 := argNumber_suffix p k f args.length
+  generalize argNumber p k f args.length = an at c1 s1
+  obtain ⟨p1, k1, r1, ai1⟩ := an
+  dsimp only at c1 s1 ⊢
+  have c2 := widthStage_ci c1 args k1 r1 ai1
+  have s2 := widthStage_suffix p1 args k1 r1 ai1
+  generalize widthStage p1 args k1 r1 ai1 = ws at c2 s2
+  obtain ⟨p2, k2, r2, ai2⟩ := ws
+  dsimp only at c2 s2 ⊢
+  have c3 := precStage_ci c2 args k2 r2 ai2
+  have s3 := precStage_suffix p2 args k2 r2 ai2
+  generalize precStage p2 args k2 r2 ai2 = ps at c3 s3
+  obtain ⟨p3, k3, r3, ai3⟩ := ps
+  dsimp only at c3 s3 ⊢
+  have hr3 : r3 <:+ f := List.IsSuffix.trans s3 (List.IsSuffix.trans s2 s1)
+  have c4 : CI (if (!ai3) = true then argNumber p3 k3 r3 args.length else (p3, k3, r3, ai3)).1 := by
+    split
+    · exact argNumber_ci c3 _ _ _
+    · exact c3
+  have s4 : (if (!ai3) = true then argNumber p3 k3 r3 args.length else (p3, k3, r3, ai3)).2.2.1 <:+ r3 := by
+    split
+    · exact argNumber_suffix _ _ _ _
+    · exact List.suffix_refl _
+  generalize (if (!ai3) = true then argNumber p3 k3 r3 args.length else (p3, k3, r3, ai3)) = an4 at c4 s4
+  obtain ⟨p4, k4, r4, ai4⟩ := an4
+  dsimp only at c4 s4 ⊢
+  have hr4 : r4 <:+ f := List.IsSuffix.trans s4 hr3
+  split
+  · exact .ok (c4.wa (asc_of_all (by decide)))
+  · rename_i verb r' hdv
+    have hr' : r' <:+ f := List.IsSuffix.trans (decodeVerb_suffix _ _ _ hdv) hr4
+    have hf' := hf.suffix hr'
+    have wbang : CI ((p4.w percentBang).wr verb) := (c4.wa (asc_of_all (by decide))).wr _
+    split
+    · exact K.fmtLoop _ _ _ _ _ (c4.wb (by decide)) hf' hv
+    · split
+      · exact K.fmtLoop _ _ _ _ _ (wbang.wa (asc_of_all (by decide))) hf' hv
+      · split
+        · exact K.fmtLoop _ _ _ _ _ (wbang.wa (asc_of_all (by decide))) hf' hv
+        · have h5 : CI (if verb = 118 then ({ p4 with f := { p4.f with sharpV := p4.f.sharp, sharp := false, plusV := p4.f.plus, plus := false } } : PP) else p4) := by
+            split
+            · exact ⟨c4.clean, c4.mode⟩
+            · exact c4
+          split
+          · rename_i a ha2
+            apply cr_bind (K.printArg _ _ _ h5 (listCl_get hv ha2))
+            intro q hq
+            exact K.fmtLoop _ _ _ _ _ hq hf' hv
+          · exact .ok h5
+
 theorem kstep_printSlot (he : EnvCl env) (K : KSpec env n) : ∀ p v verb d i ro, CI p → ValCl v → CR (printSlot env (n + 1) p v verb d i ro) := by
   intro p v verb d i ro hp hv
   have noMethod : ∀ q3, CI q3 → CR (if i = true then printSlot env n q3 v verb (d + 1) false ro else printValue env n q3 v verb d ro) := by
@@ -628,7 +914,7 @@ theorem kstep_printSlot (he : EnvCl env) (K : KSpec env n) : ∀ p v verb d i ro
       split at hspecial <;> cases hspecial
     · exact wrap
 
-/-- **Clean inputs keep the buffer clean**, through every function reachable from `doPrint`, at every fuel. -/
+/-- **Clean inputs keep the buffer clean**, through all 21 functions of the printer, at every fuel. -/
 theorem kspec_all (env : Env) (he : EnvCl env) : ∀ n, KSpec env n := by
   intro n
   induction n with
@@ -650,7 +936,12 @@ theorem kspec_all (env : Env) (he : EnvCl env) : ∀ n, KSpec env n := by
       printElems := kstep_printElems he ih
       printPairs := kstep_printPairs he ih
       doPrint := kstep_doPrint he ih
-      doPrintLoop := kstep_doPrintLoop he ih }
+      doPrintLoop := kstep_doPrintLoop he ih
+      doPrintf := kstep_doPrintf he ih
+      fmtLoop := kstep_fmtLoop he ih
+      directiveTail := kstep_directiveTail he ih
+      finishPrintf := kstep_finishPrintf he ih
+      extraLoop := kstep_extraLoop he ih }
 
 theorem clean_init : Clean Buffer.init := ⟨[], [], inv_init, runeEnd_nil, fun _ => runeEnd_nil, fun _ => Or.inl rfl, rfl, rfl⟩
 
@@ -673,5 +964,22 @@ theorem sprint_output_clean (env : Env) (he : EnvCl env) (args : List Val) (ha :
     (h : sprint env args = .ok q) :
     RuneEnd (tokenize q.buf.redactableBytes) ∧ tailBad q.buf.redactableBytes = false :=
   doPrint_output_clean env he defaultFuel args ha q h
+
+theorem doPrintf_output_clean (env : Env) (he : EnvCl env) (n : Nat) (p : PP) (hp : CI p) (f : List Byte) (hf : FmtCl f)
+    (args : List Val) (ha : ListCl args) (q : PP) (h : doPrintf env n p f args = .ok q) :
+    RuneEnd (tokenize q.buf.redactableBytes) ∧ tailBad q.buf.redactableBytes = false := by
+  have hr := (kspec_all env he n).doPrintf p f args hp hf ha
+  rw [h] at hr
+  cases hr with
+  | ok hq =>
+    obtain ⟨a, d, k⟩ := hq.clean
+    have ⟨c, _, _⟩ := finalize_K _ _ _ k
+    exact ⟨c, tailBad_of_runeEnd _ c⟩
+
+/-- **The output of `Sprintf` on a clean format and clean operands ends in a complete character.** -/
+theorem sprintf_output_clean (env : Env) (he : EnvCl env) (f : List Byte) (hf : FmtCl f) (args : List Val) (ha : ListCl args)
+    (q : PP) (h : sprintf env f args = .ok q) :
+    RuneEnd (tokenize q.buf.redactableBytes) ∧ tailBad q.buf.redactableBytes = false :=
+  doPrintf_output_clean env he defaultFuel newPP ci_newPP f hf args ha q h
 
 end Redact
